@@ -246,3 +246,27 @@ Theorem C12_cursor_level_node_iterator : forall D has_ns hc rm rn rr q (wf : m1_
                 (map (fun it => (it, it_node it)) l, E_nil, st', last (nodes_of l) c).
 Proof. exact run_iter3_items. Qed.
 Print Assumptions C12_cursor_level_node_iterator.
+
+(* ------------------------------------------------------------------ *)
+(* Evaluate = Select, count, reverse FOR EVERY predicate-free path (all 12 axes: the sequence may
+   repeat nodes and need not be sorted), from the text *)
+From XP.Proofs Require Import EndToEndEvalSelect.
+
+Theorem C12_end_to_end_evaluate_count_reverse : forall D has_ns hc rm rn rr,
+  hash_ok (hc D) (all_nodes D) ->
+  forall re_ok ns p abs steps,
+  path_syntax p -> steps_of p = (abs, steps) -> List.length steps + 2 <= max_build_depth ->
+  xok p -> xok (XCall "count" (AOne p)) -> xok (XCall "reverse" (AOne p)) ->
+  exists q,
+    compile re_ok (print_min p) ns = Ok q /\
+    compile re_ok (print_min (XCall "count" (AOne p))) ns = Ok (QFn1 FCount q) /\
+    compile re_ok (print_min (XCall "reverse" (AOne p))) ns = Ok (QReverse q) /\
+    forall c, valid D c = true ->
+    exists l,
+      select rm rn rr hc D has_ns q c = Val l /\
+      (forall n, In n l <-> path_den D has_ns steps (if abs then root_node else c) n) /\
+      (exists l', evaluate rm rn rr hc D has_ns q c = Val (VNodes l') /\ nodes_of l' = l) /\
+      evaluate rm rn rr hc D has_ns (QFn1 FCount q) c = Val (VNum (of_Z (Z.of_nat (List.length l)))) /\
+      select rm rn rr hc D has_ns (QReverse q) c = Val (rev l).
+Proof. exact C12_path_evaluate_count_reverse. Qed.
+Print Assumptions C12_end_to_end_evaluate_count_reverse.
